@@ -50,7 +50,7 @@ def mucv_root(mod, fn, cond_ref, K):
         return None
     return (ac2['base'], sense)
 
-def check_dequeuers(ctx, mod, eng, runs, rep):
+def check_dequeuers(ctx, mod, eng, runs, rep, rids=('C13.R4', 'C13.R5')):
     """R4: the dequeue function of every waitable kind passes, on every path, through the lock under which that kind's wakers touch a record
     (note_mu / counter_mu: lockset rules C08.R5, C10.R2; cv spinlock: R3 above).  The caller of nsync_wait_n discards its records right after the
     dequeue calls; a path through dequeue that does not take the lock can overtake a waker that has unlinked the record and is still about to
@@ -59,8 +59,10 @@ def check_dequeuers(ctx, mod, eng, runs, rep):
     every path between exposing the record (the unlock after the enqueue) and its return."""
     from .. import objmodel
     from ..symex import Ptr
-    rep.rule('C13.R4', 'every dequeue function takes, on every path, the lock under which wakers of that kind touch the record')
-    rep.rule('C13.R5', 'a frame-local record put on a shared waiter list: the list mutex is re-taken on every path before the frame dies')
+    R4, R5 = rids
+    rep.rule(R4, 'every dequeue function takes, on every path, the lock under which wakers of that kind touch the record')
+    if R5:
+        rep.rule(R5, 'a frame-local record put on a shared waiter list: the list mutex is re-taken on every path before the frame dies')
     oeng, oruns = objmodel.analyse(ctx)
     n4 = 0
     for label, fname, exits in oruns:
@@ -75,9 +77,9 @@ def check_dequeuers(ctx, mod, eng, runs, rep):
             took = any(isinstance(k, tuple) and k[0] == 'ever' and isinstance(k[1], Ptr) and k[1].path and k[1].path[-1][0] == 'f' and k[1].path[-1][1] == mf
                        and k[1].base in ('arg:n', 'arg:c') and len(k[1].path) == 1 for k in x.ghost)
             n4 += 1
-            rep.instance('C13.R4', '%s: exit path, %s taken: %s' % (label, mf, took)); rep.oblig('C13.R4', took)
+            rep.instance(R4, '%s: exit path, %s taken: %s' % (label, mf, took)); rep.oblig(R4, took)
             if not took:
-                rep.violate(Violation('C13.R4', '%s in %s' % (fn.file and IR.rel(fn.file) or '?', fname),
+                rep.violate(Violation(R4, '%s in %s' % (fn.file and IR.rel(fn.file) or '?', fname),
                     '%s: a path through the %s dequeue function returns without having taken %s; wakers of this kind unlink a record, clear its waiting flag and read nw->sem inside that mutex, so only taking it guarantees they are done - nsync_wait_n discards the record (its stack frame / heap block) right after this call' % (fname, kind, mf),
                     site='%s/dequeue-skips-lock' % fname))
     for e, exits in runs:
@@ -86,24 +88,26 @@ def check_dequeuers(ctx, mod, eng, runs, rep):
         for x in exits:
             took = any(isinstance(k, tuple) and k[:2] == ('flag', 'cv_spin_taken') and k[2] == mumodel.CV for k in x.ghost)
             n4 += 1
-            rep.instance('C13.R4', '%s: exit path, cv spinlock taken: %s' % (e['label'], took)); rep.oblig('C13.R4', took)
+            rep.instance(R4, '%s: exit path, cv spinlock taken: %s' % (e['label'], took)); rep.oblig(R4, took)
             if not took:
-                rep.violate(Violation('C13.R4', 'internal/cv.c in %s' % e['fn'],
+                rep.violate(Violation(R4, 'internal/cv.c in %s' % e['fn'],
                     '%s: a path through the cv dequeue function returns without having taken the cv spinlock; signal/broadcast wake nsync_wait_n records inside that spinlock, so only taking it guarantees they are done with the record' % e['fn'],
                     site='%s/dequeue-skips-lock' % e['fn']))
-    rep.floor('C13.R4', 3)
+    rep.floor(R4, 3)
+    if not R5:
+        return
     n5 = 0
     for label, fname, exits in oruns:
         for x in exits:
             pend = [k for k, v in x.ghost.items() if isinstance(k, tuple) and k[0] == 'enq_local']
             if any(r.kind == 'enqueue' and r.entry == label and isinstance(r.element, Ptr) and r.element.base.startswith('alloca:') for r in oeng.records):
                 n5 += 1
-                rep.instance('C13.R5', '%s: exit path, frame-local record still exposed: %s' % (label, bool(pend))); rep.oblig('C13.R5', not pend)
+                rep.instance(R5, '%s: exit path, frame-local record still exposed: %s' % (label, bool(pend))); rep.oblig(R5, not pend)
             if pend:
-                rep.violate(Violation('C13.R5', 'in %s' % fname,
+                rep.violate(Violation(R5, 'in %s' % fname,
                     '%s: returns on a path where a waiter record in its own stack frame was put on %s and the list mutex was released, without re-taking that mutex: a notifier that already unlinked the record may still be reading nw.sem / posting while the frame is reused' % (fname, pend[0][1]),
                     site='%s/local-record-exposed' % fname))
-    rep.floor('C13.R5', 1)
+    rep.floor(R5, 1)
     # R6: wakers of note / counter records touch them only inside the object's mutex (same lockset facts as C08.R5 / C10.R2, judged here for
     # the reclamation hazard: the dequeuer of R4 takes that mutex, so holding it is what keeps the record alive)
     rep.rule('C13.R6', 'note / counter wakers write waiting and post the semaphore of a listed record only inside the object mutex')
